@@ -5,7 +5,9 @@
   `Location` resolved to).  A hop on which the CONNECT-tunnel branch is taken (`rd_tunnels s u_i`)
   writes only the CONNECT head before TLS starts and is excluded from (g), (h).
     (g) every hop writes the same method and — for a rewindable body — the same body;
-        for a one-shot body (multipart) the replay is NOT faithful: known finding, proved here;
+        for a one-shot body (a caller's `Body` whose `write` works only once — every body kind the
+        library ships, multipart included since fix a131285, can be written again) the replay cannot
+        be faithful: proved here, so that the hypothesis of (g) is visibly necessary;
     (h) every hop sends the caller's header fields unchanged, and exactly one `Host`, naming
         hop i's own authority (the proxy's for plain http through a proxy);
     (i) the proxy decision is re-evaluated for every hop's URL.
@@ -155,7 +157,8 @@ example (out : HopOut) (h : (send (rx_settings true 5) rx_req 64 rx_a rx_chain).
   rw [eb] at hh
   exact ⟨head, hh⟩
 
-/-- One-shot body (`bodyRewindable = false`, the multipart body): from hop 1 on the request is written
+/-- One-shot body (`bodyRewindable = false`: a caller-defined `Body` that cannot be written twice; it
+    was also the library's multipart body until fix a131285): from hop 1 on the request is written
     with the same head — including the framing header computed for the full body — but the body's
     `write` produces nothing. -/
 theorem C10_oneshot_body (s : SendSettings) (req : Req) (cap : Nat) (url : Url) (hops : List Hop)
@@ -184,10 +187,11 @@ def C10_same_method_body_full : Prop :=
     rd_tunnels s u = false →
     out.wrote = writeRequest req.method u (rd_plainViaProxy s u) (rd_hopHdrs s hin u) req.body
 
-/-- Known finding (the model mirrors the code): the full property is FALSE. Witness: the one-shot
+/-- The statement without the hypothesis `bodyRewindable = true` is FALSE (it was the known finding F9
+    while the library's own multipart body was one-shot; it now concerns caller-defined bodies only). Witness: the one-shot
     3-byte body on the chain a → b → c; the request to `b` announces `content-length: 3` and
     carries no body byte. -/
-theorem C10_full_refuted_multipart : ¬ C10_same_method_body_full := by
+theorem C10_full_refuted_oneshot : ¬ C10_same_method_body_full := by
   intro hfull
   have h := hfull (rx_settings true 5) rx_reqOneShot 64 rx_a rx_chain 1
     (rd_plainOut (rx_settings true 5) rx_reqOneShot rx_b
